@@ -43,11 +43,14 @@ pub struct Settings {
     pub conv: Option<f64>,
     pub seed: u64,
     pub reuse: bool,
+    /// how the optimiser is configured: "cli" = parsed from arguments as main.rs does; "si" / "is" = the library's
+    /// setters on BuildOptimiser::default(), steps before inner_steps or the other way round
+    pub order: String,
 }
 
 impl Settings {
     pub fn from_spec(s: &Spec) -> Settings {
-        Settings {
+        let st = Settings {
             steps: s.u("steps"),
             kt_start: s.f("kt_start"),
             kt_finish: s.fo("kt_finish"),
@@ -57,7 +60,14 @@ impl Settings {
             conv: s.fo("conv"),
             seed: s.u("seed"),
             reuse: s.u_or("reuse", 0) == 1,
+            order: s.get_or("order", "cli").to_string(),
+        };
+        // the library's default builder has kt_finish = Some(0.001) and no way to unset it
+        let mut st = st;
+        if st.order != "cli" && st.kt_finish.is_none() {
+            st.kt_finish = Some(0.001);
         }
+        st
     }
     pub fn to_spec(&self) -> String {
         format!(
@@ -74,6 +84,19 @@ impl Settings {
     }
     /// Built exactly as the command line does it (structopt), then the library setters.
     pub fn builder(&self) -> BuildOptimiser {
+        if self.order != "cli" {
+            let mut b = BuildOptimiser::default();
+            if self.order == "is" {
+                b.inner_steps(self.inner).steps(self.steps);
+            } else {
+                b.steps(self.steps).inner_steps(self.inner);
+            }
+            b.kt_start(self.kt_start).max_step_size(self.max_step).kt_ratio(self.kt_ratio).convergence(self.conv).seed(self.seed);
+            if let Some(f) = self.kt_finish {
+                b.kt_finish(f);
+            }
+            return b;
+        }
         let mut args: Vec<String> = vec![
             "opt".into(),
             format!("--steps={}", self.steps),
@@ -295,6 +318,18 @@ impl Scripted {
                     }
                     1 => None,
                     2 => Some(cur), // equal: accepted, believed unchanged in value
+                    3 => {
+                        // worse by one of a few FIXED amounts: the same score difference recurs at every temperature
+                        let d = [0.01, 0.02, 0.04][(hash2(self.sseed, 7 * k) % 3) as usize];
+                        let new = cur - d;
+                        if kt > 0. {
+                            let p = f64::exp((new - cur) / kt);
+                            if thr < p {
+                                st.believed = new;
+                            }
+                        }
+                        Some(new)
+                    }
                     _ => {
                         if kt > 0. && thr > 0. {
                             // worse by d with exp(-d/kt) just above / just below the threshold
@@ -501,7 +536,19 @@ fn run_state<S: State>(
     }
 }
 
+/// a group whose last operation does not parse: building a site from it fails, and must leave nothing behind
+/// for the next site built on this thread
+pub fn failed_group_before() {
+    let bad = packing::WallpaperGroup {
+        name: "bad",
+        family: packing::CrystalFamily::Monoclinic,
+        wyckoff_str: vec!["x,y", "-x,-y", "-x+1/2,y", "x,q"],
+    };
+    let _ = packing::wallpaper::WyckoffSite::new(&bad);
+}
+
 pub fn group_of(name: &str) -> packing::WallpaperGroup<'static> {
+    failed_group_before();
     get_wallpaper_group(WallpaperGroups::from_str(name).expect("group name")).expect("group")
 }
 
